@@ -288,7 +288,7 @@ def doc_block(style: str, desc: str, params: list[tuple[str, str, str]], result:
 class PkgGen:
     def __init__(self, rng: random.Random, *, kw_rate=0.05, style="plaintext", docs=0.5, reexports=True,
                  test_dirs=False, private_rate=0.2, infer_returns=0.15, n_modules=(2, 4), root_name="pkg",
-                 cross_refs=True, doc_types="none", unique_top_names=True, ties=0.0, aliases=0.0, chains=0.0, decoys=0.0, dual=0.0):
+                 cross_refs=True, doc_types="none", unique_top_names=True, ties=0.0, aliases=0.0, chains=0.0, decoys=0.0, dual=0.0, twins=0.0, base_alias=0.0):
         self.r = rng
         self.names = Names(rng, kw_rate)
         self.style = style
@@ -317,8 +317,16 @@ class PkgGen:
         self.decoys = decoys
         # rate of packages whose root __init__ re-exports one module BOTH under an alias and by a wildcard import
         self.dual = dual
+        # rate of packages with a class re-exported by TWO sibling packages of equal depth whose ids differ in length
+        self.twins = twins
+        # rate of packages with two modules that each define a module-level alias of ONE short name for different classes and
+        # derive a class through it
+        self.base_alias = base_alias
         self.global_used: set = set()
         self.counter = 0
+
+    def test_dirs_only_root(self) -> bool:
+        return False
 
     def marker(self, what: str) -> str:
         self.counter += 1
@@ -642,7 +650,7 @@ class PkgGen:
         # un-annotated function whose only `return`s are the implicit ones of lambdas.  No random draws.
         m0 = modules[0]
         if not (set(m0["pkg"] + [m0["name"]]) & {"test", "tests", "docs"}) and "zz_gather" not in self.global_used:
-            self.global_used.update({"zz_gather", "zz_hook", "zz_clip"})
+            self.global_used.update({"zz_gather", "zz_hook", "zz_clip", "zz_when"})
             par = lambda n, k, a, d=None: {"name": n, "kind": k, "ann": a, "default": d, "doc": "", "doc_type": None}
             base = {"kind": "function", "method_kind": None, "returns": None, "doc": "", "result_doc": "", "is_property": False,
                     "result_doc_type": None, "rest_type_first": True}
@@ -655,6 +663,10 @@ class PkgGen:
                                     "params": [par("value", "POSITION_OR_NAME", ("float",)),
                                                par("lower", "POSITION_OR_NAME", ("float",), ("-1e999", float("-inf"))),
                                                par("upper", "POSITION_OR_NAME", ("float",), ("1e999", float("inf")))]})
+            # two classes of ONE module of another library: its placeholder stub is created, then appended to
+            m0["functions"].append({**base, "name": "zz_when", "ret": ("None",),
+                                    "params": [par("zz_day", "POSITION_OR_NAME", ("cls", "date", "datetime.date")),
+                                               par("zz_moment", "POSITION_OR_NAME", ("cls", "datetime", "datetime.datetime"))]})
             m0["functions"].append({**base, "name": "zz_hook", "ret": None, "params": [],
                                     "extra_body": ["zz_cb = lambda: 0", "zz_cb2 = lambda: ('a', True)", "zz_cb3 = lambda: None"]})
         # members of another module reached through the module object (`import a.b as m; m.f`, `m.C`): expression types
@@ -670,6 +682,13 @@ class PkgGen:
                 t = cands[(len(m["name"]) * 3 + i) % len(cands)]
                 m["member_access"] = {"module": t["qname"], "funcs": [f["name"] for f in t["functions"]][:2],
                                       "classes": [c["name"] for c in t["classes"]][:2], "enums": [e["name"] for e in t["enums"]][:1]}
+        # a module OUTSIDE the test/docs directories imports one INSIDE them (a self-check that borrows test helpers): mypy's
+        # build graph then holds the excluded module although it was not discovered.  No draws.
+        outside = [m for m in modules if not (set(m["pkg"] + [m["name"]]) & EXCL)]
+        inside = [m for m in modules if set(m["pkg"] + [m["name"]]) & EXCL]
+        if outside and inside:
+            outside[-1].setdefault("raw_tail", []).extend([f"import {inside[0]['qname']} as _zz_borrowed", ""])
+            outside[-1]["imports_excluded"] = inside[0]["qname"]
         # re-exports in __init__ files
         inits = {tuple(p): [] for p in pkgs}
         for p in pkgs:
@@ -704,6 +723,14 @@ class PkgGen:
                 return {"kind": "module", "name": modname, "pkg": [self.root], "qname": qn, "classes": [c], "functions": [],
                         "enums": [], "doc": "", "imports": set(), "aliases": False, "overload_fn": False}
             ma, mb = zz_cfg("zz_cfg_a"), zz_cfg("zz_cfg_b")
+            # each module also documents its OWN `ZzConfig` under the same annotation text: hint and docstring agree there
+            for mm in (ma, mb):
+                own = ("cls", "ZzConfig", mm["classes"][0]["qname"])
+                mm["functions"].append({"kind": "function", "name": "zz_make_" + mm["name"][-1], "method_kind": None,
+                                        "params": [{"name": "zz_c", "kind": "POSITION_OR_NAME", "ann": own, "default": None,
+                                                    "doc": self.marker("param zz_c"), "doc_type": (own, True)}],
+                                        "ret": own, "returns": None, "doc": self.marker("function zz_make"), "result_doc": "",
+                                        "is_property": False, "result_doc_type": None, "rest_type_first": True})
             hint = ("cls", "ZzConfig", ma["classes"][0]["qname"])
             other = ("qcls", "ZzConfig", mb["classes"][0]["qname"])
             f = {"kind": "function", "name": "zz_conflict", "method_kind": None,
@@ -715,6 +742,49 @@ class PkgGen:
                   "functions": [f], "enums": [], "doc": "", "imports": set(), "aliases": False, "overload_fn": False,
                   "plain_imports": [mb["qname"]]}
             modules += [ma, mb, mu]
+        # a sub-package whose directory name ENDS with an underscore (`types_`, `async_`): a non-final segment of the dotted
+        # module path with a trailing underscore.  No draws.
+        if "zz_price" not in self.global_used and not self.test_dirs_only_root():
+            self.global_used.add("zz_price")
+            inits[(self.root, "zz_types_")] = []
+            qz = f"{self.root}.zz_types_.zzprice"
+            modules.append({"kind": "module", "name": "zzprice", "pkg": [self.root, "zz_types_"], "qname": qz, "classes": [],
+                            "functions": [{"kind": "function", "name": "zz_price", "method_kind": None, "params": [], "ret": ("int",),
+                                           "returns": None, "doc": "", "result_doc": "", "is_property": False,
+                                           "result_doc_type": None, "rest_type_first": True}],
+                            "enums": [], "doc": "", "imports": set(), "aliases": False, "overload_fn": False})
+        if self.base_alias > 0 and (len(modules[0]["name"]) * 13 + len(modules)) % 100 < self.base_alias * 100:
+            # `ZzBase = ZzRound` in one module, `ZzBase = ZzCorner` in another; `class ZzCircle(ZzBase)`, `class ZzSquare(ZzBase)`:
+            # each class derives from the class ITS module's alias names.  No draws.
+            for modname, real, derived in (("zz_circles", "ZzRound", "ZzCircle"), ("zz_squares", "ZzCorner", "ZzSquare")):
+                qm = f"{self.root}.{modname}"
+                mk = lambda n, bases, pre=(): {"kind": "class", "name": n, "qname": f"{qm}.{n}", "bases": bases, "init": None,
+                                               "inst_attrs": [], "attrs": [{"name": "zz_k", "ann": ("int",), "value": "0", "doc": ""}],
+                                               "methods": [], "classes": [], "doc": "", "extras": {"pre_lines": list(pre)}}
+                modules.append({"kind": "module", "name": modname, "pkg": [self.root], "qname": qm,
+                                "classes": [mk(real, []), mk(derived, [("ZzBase", f"{qm}.{real}")], [f"ZzBase = {real}", ""])],
+                                "functions": [], "enums": [], "doc": "", "imports": set(), "aliases": False, "overload_fn": False})
+        if self.twins > 0 and (len(modules[0]["name"]) * 11 + len(modules)) % 100 < self.twins * 100:
+            # `pkg/zz_long_name` and `pkg/zzb` both re-export pkg.zz_things.ZzThing; pkg.zz_use refers to it.  The package with
+            # the fewest path segments is a tie; the tie is broken by the id, not by the length of its spelling.  No draws.
+            qt = f"{self.root}.zz_deep.zz_things"
+            thing = {"kind": "class", "name": "ZzThing", "qname": f"{qt}.ZzThing", "bases": [], "init": None, "inst_attrs": [],
+                     "attrs": [{"name": "zz_n", "ann": ("int",), "value": "0", "doc": ""}], "methods": [], "classes": [], "doc": "",
+                     "extras": {}}
+            user = {"kind": "function", "name": "zz_use_thing", "method_kind": None, "ret": ("None",), "returns": None, "doc": "",
+                    "result_doc": "", "is_property": False, "result_doc_type": None, "rest_type_first": True,
+                    "params": [{"name": "zz_t", "kind": "POSITION_OR_NAME", "ann": ("cls", "ZzThing", f"{qt}.ZzThing"),
+                                "default": None, "doc": "", "doc_type": None}]}
+            blank = lambda pk, n, cs, fs: {"kind": "module", "name": n, "pkg": pk, "qname": ".".join(pk + [n]), "classes": cs,
+                                           "functions": fs, "enums": [], "doc": "", "imports": set(), "aliases": False,
+                                           "overload_fn": False}
+            modules += [blank([self.root, "zz_deep"], "zz_things", [thing], []), blank([self.root], "zz_use", [], [user])]
+            inits[(self.root, "zz_deep")] = []
+            for pk in ("zz_long_name", "zzb"):
+                inits[(self.root, pk)] = [{"form": "name", "module": qt, "name": "ZzThing", "alias": None}]
+                # a package enters mypy's build graph only through one of its modules
+                filler = dict(user, name=f"zz_fill_{pk}", params=[])
+                modules.append(blank([self.root, pk], "zz_m", [], [filler]))
         if self.dual > 0 and (len(modules[0]["name"]) * 3 + len(modules)) % 100 < self.dual * 100:
             # `from pkg import _impl as zz_helpers` + `from pkg._impl import *`: the re-export set of that module holds
             # (package, alias) and (package, None) — a tie on the package id that only the alias can break.  No draws.
@@ -942,6 +1012,7 @@ def module_src(m, style: str) -> str:
             lines.append("    ...")
         lines.append("")
     for c in m["classes"]:
+        lines += c.get("extras", {}).get("pre_lines", [])
         lines += class_src(c, "", style)
         lines.append("")
     if m.get("overload_fn"):
